@@ -213,11 +213,8 @@ def check(src, rep):
 
 def _rest(rep, M, CM, file):
     # ---------------------------------------------------------------- R2 / R3: connect coroutine
-    tc = None
-    for name, f in CM.methods.items():
-        if isinstance(f.node, ast.AsyncFunctionDef) and any(isinstance(n, ast.Attribute) and n.attr == "_connection_factory" or (isinstance(n, ast.Attribute) and "factory" in n.attr) for n in ast.walk(f.node)):
-            if any(isinstance(n, ast.Await) and "factory" in ast.unparse(n) for n in ast.walk(f.node)):
-                tc = f
+    from sa.asyncts import connect_coroutine
+    tc = connect_coroutine(CM)
     rep.require(tc is not None, "cannot find the coroutine that awaits the connection factory")
     strat_field = None
     for a, t in CM.field_types.items():
@@ -229,7 +226,7 @@ def _rest(rep, M, CM, file):
                 strat_field = a
     rep.require(strat_field is not None, "cannot bind the back-off strategy field of ConnectionManager")
     SF = ("f0", SELF, strat_field)
-    ps = Engine(M, keep_props={"current_delay_sec"}).run(tc)
+    ps = Engine(M, keep_props={"current_delay_sec"}, inline_async=True).run(tc)
     n_conn = 0
     bad2 = bad3 = 0
 
